@@ -26,7 +26,8 @@ func c17Contents() [][]mockq.Rec {
 	mk := func(lines ...string) []mockq.Rec {
 		var out []mockq.Rec
 		for i, l := range lines {
-			out = append(out, mockq.Rec{TS: int64(i+1) * sec17, Line: l, Labels: []mockq.KV{{K: "a", V: "b"}, {K: "v", V: []string{"5", "abc", "1e999", "-0", "NaN"}[i%5]}, {K: "lat", V: []string{"1s", "99999999h", "x", "-1ns", ""}[i%5]}}})
+			// (seconds 1..12 over and over: every line lies inside the windows of the three evaluation modes)
+			out = append(out, mockq.Rec{TS: int64(i%12+1)*sec17 + int64(i/12), Line: l, Labels: []mockq.KV{{K: "a", V: "b"}, {K: "v", V: []string{"5", "abc", "1e999", "-0", "NaN"}[i%5]}, {K: "lat", V: []string{"1s", "99999999h", "x", "-1ns", ""}[i%5]}}})
 		}
 		return out
 	}
@@ -40,8 +41,10 @@ func c17Contents() [][]mockq.Rec {
 	veryDeepArr := strings.Repeat("[", 3000) + strings.Repeat("]", 3000)
 	return [][]mockq.Rec{
 		mk("\x00\xff\xfe\x80", "", "a", "\x1b[\x1b[;;;;m", strings.Repeat("é", 300), "<>{{}}%!s(MISSING)", "\"", "\\"),
-		mk(`{"a":{"b":[1,2`, deep, deepArr, `{"a":"b","a":{"a":"b"},"v":1e999,"":""}`, `{"_entry":5,"x y":"z"}`, `{"_entry":"{\"_entry\":1}","a":"\ud800"}`, `[1,2,3]`, `null`, `{"a":1}{"a":2}`, `{"tags":["a",null],"a":[null]}`, `{"a":{"b":[{"c":null},null,[null]]}}`, `{"__error__":"boom","n":"abc","v":"x"}`, `{"__error_details__":"d","n":"abc"}`),
-		mk(`d= a= b= sz= v=`, `d="" a="" v=""`, `{"d":"","a":"","v":""}`, `d=1s a=2 b=3 v=4`, `d a b v`, `__error__=boom n=abc v=x d=y`, `__error_details__=d n=abc v=x`),
+		mk(`{"a":{"b":[1,2`, deep, deepArr, `{"a":"b","a":{"a":"b"},"v":1e999,"":""}`, `{"_entry":5,"x y":"z"}`, `{"_entry":"{\"_entry\":1}","a":"\ud800"}`, `[1,2,3]`, `null`, `{"a":1}{"a":2}`, `{"tags":["a",null],"a":[null]}`, `{"a":{"b":[{"c":null},null,[null]]}}`, `{"__error__":"boom","n":"abc","v":"x"}`, `{"__error_details__":"d","n":"abc"}`,
+			`{"`+strings.Repeat("k", 60)+`.io/name":"v","0`+strings.Repeat("9", 63)+`":1,"`+strings.Repeat("a.b/", 80)+`":true}`),
+		mk(`d= a= b= sz= v=`, `d="" a="" v=""`, `{"d":"","a":"","v":""}`, `d=1s a=2 b=3 v=4`, `d a b v`, `__error__=boom n=abc v=x d=y`, `__error_details__=d n=abc v=x`,
+			strings.Repeat("k", 60)+`.io/name=v 0`+strings.Repeat("9", 63)+`=1 `+strings.Repeat("a.b/", 80)+`=true`),
 		mk(`a="x`, `==`, `a=b=c`, `"`, `a= b= =c`, "a=\x00 b=\xff", `k="\xzz"`, `a="unterminated \"`, strings.Repeat("k=v ", 500)),
 		mk(`v=1e999 d=99999999h sz=99999999999999999999EB`, `v=-0 d=-1ns sz=-1KB`, `v=9223372036854775808 d=9223372036854775807ns sz=18446744073709551616b`, `v=NaN d=NaN sz=NaN`, `v=Inf d=+Inf sz=0x10`, `v=1e-999 d=0.0000000001ns sz=1.5.5MB`, `{"v":1e999,"d":"9e99h","sz":"1e99gb","ip":"999.999.999.999"}`),
 		mk(`GET /a 200 10.0.0.1 ::ffff:1.2.3.4 1.2.3.4.5.6 ::::::`, `ip=::1 ip2=1::1::1 addr=256.1.1.1`, `a b c d e f`, `[x] "y"`, `<a> <b>`, `x 1`, `9.`, `1.2`, `:`, `f:`),
@@ -208,6 +211,10 @@ func c17Run(r *vkit.Run) {
 				visit(layout(ins, 0))
 			}
 		}
+		// ... and appended after the last token (what follows a complete query)
+		for _, v := range c17Vocab {
+			visit(layout(append(append([]tok(nil), toks...), w(v)), 0))
+		}
 	}
 	r.GlobalState("token-mutations")
 	// (c) all token sequences up to length L over the vocabulary
@@ -335,7 +342,7 @@ func c17Run(r *vkit.Run) {
 	if r.WantSample() {
 		r.Sample(map[string]any{"token_sequence": "sum ( rate ( {a=\"b\"} [1s] ) )", "byte_string": "{\xff\"", "contents": len(c17Data)})
 	}
-	r.Note("bounds", fmt.Sprintf("queries: the %d-query positive corpus; delete/replace/insert of every one of %d vocabulary tokens at every position of every %dth corpus query; all token sequences of length <=%d over the vocabulary; all byte strings of length <=3 over 24 bytes; 120 hostile template/regex/pattern/path/parameter/grouping queries; 26 constructs with a string parameter x 26 degenerate strings. Every query that parses is evaluated instant and as a 5-step range query against %d log contents (arbitrary bytes, truncated and deeply nested JSON (3000-deep for the JSON-reading stages), malformed logfmt, extreme numbers/durations/sizes, odd IPs). Watchdog 20 s, a hang is believed only after a second 120 s run", len(cp), len(c17Vocab), step, L, len(c17Data)))
+	r.Note("bounds", fmt.Sprintf("queries: the %d-query positive corpus; delete/replace/insert/append of every one of %d vocabulary tokens at every position of every %dth corpus query; all token sequences of length <=%d over the vocabulary; all byte strings of length <=3 over 24 bytes; 120 hostile template/regex/pattern/path/parameter/grouping queries; 26 constructs with a string parameter x 26 degenerate strings. Every query that parses is evaluated instant and as a 5-step range query against %d log contents (arbitrary bytes, truncated and deeply nested JSON (3000-deep for the JSON-reading stages), malformed logfmt, extreme numbers/durations/sizes, odd IPs). Watchdog 20 s, a hang is believed only after a second 120 s run", len(cp), len(c17Vocab), step, L, len(c17Data)))
 }
 
 func c17Replay(r *vkit.Run, v vkit.Violation) *vkit.Violation {
